@@ -7,11 +7,15 @@ import (
 	"strings"
 
 	ipfslog "berty.tech/go-ipfs-log"
+	"berty.tech/go-ipfs-log/enc"
+	"berty.tech/go-ipfs-log/entry"
 	"berty.tech/go-ipfs-log/iface"
+	"berty.tech/go-ipfs-log/io/cbor"
 	"berty.tech/go-ipfs-log/zvsync"
 	"github.com/ipfs/go-cid"
 
 	"verif/engine/sched"
+	"verif/engine/seqx"
 	"verif/engine/store"
 	"verif/engine/world"
 )
@@ -506,6 +510,37 @@ func c13Scenarios(tier string) []Spec {
 				}
 			}, func() { w.appendOp(1, w.a, "x1") }}
 		}, A, false),
+		// S19: two logs of one link key merge the same source at the same time (the usual fan-out); both only read the
+		// source's entry objects — verification works on copies
+		{Bound: 1, RaceBound: 1, Sc: sched.Scenario{Name: "S19-keyed:A.join(S)|B.join(S)", Make: func() *sched.Instance {
+			w := &w13{st: NewStore(), obs: newObs(2), recs: make([][]opRec, 2)}
+			kio := keyedIO(0x4b)
+			w.a = world.NewLog(w.st, 0, &ipfslog.LogOptions{IO: kio})
+			w.b = world.NewLog(w.st, 1, &ipfslog.LogOptions{IO: kio})
+			w.c = world.NewLog(w.st, 2, &ipfslog.LogOptions{IO: kio})
+			mustAppend(w.a, "a1")
+			mustAppend(w.b, "b1")
+			mustAppend(w.c, "c1")
+			mustAppend(w.c, "c2")
+			var before []string
+			for _, e := range w.c.GetEntries().Slice() {
+				before = append(before, seqx.DumpEntry(e))
+			}
+			src := w.c
+			return &sched.Instance{Bodies: []func(){func() { w.joinOp(0, w.a, src, -1, "join:A<-S") }, func() { w.joinOp(1, w.b, src, -1, "join:B<-S") }},
+				Check: func(*zvsync.Result) (string, []sched.Finding) {
+					out, fs := w.finalCheck(w.a, "A", false)
+					for i, e := range src.GetEntries().Slice() {
+						if i < len(before) && seqx.DumpEntry(e) != before[i] {
+							fs = append(fs, sched.Finding{Key: "merge-mutated-the-source", What: fmt.Sprintf("an entry of the source log changed while two logs merged it:\n before %s\n after  %s", before[i], seqx.DumpEntry(e))})
+						}
+					}
+					if w.b.Len() != 3 {
+						fs = append(fs, sched.Finding{Key: "keyed-merge-incomplete", What: fmt.Sprintf("B holds %d entries after merging S (expected 3)", w.b.Len())})
+					}
+					return out, fs
+				}}
+		}}},
 		mk("S15-join|entries", 2, b2, func(w *w13) []func() {
 			return []func(){func() { w.joinOp(0, w.a, w.b, -1, "join:A<-B") }, func() { w.readEntries(1, w.a) }}
 		}, A, false),
@@ -583,4 +618,17 @@ func c13Scenarios(tier string) []Spec {
 
 func init() {
 	register(&Check{ID: "C13", Scenarios: c13Scenarios})
+}
+
+// keyedIO is the cbor codec with a link key (32 bytes of b).
+func keyedIO(b byte) iface.IO {
+	sk, err := enc.NewSecretbox(bytes.Repeat([]byte{b}, 32))
+	if err != nil {
+		panic(err)
+	}
+	base, err := cbor.IO(&entry.Entry{}, &entry.LamportClock{})
+	if err != nil {
+		panic(err)
+	}
+	return base.ApplyOptions(&cbor.Options{LinkKey: sk})
 }
